@@ -80,7 +80,7 @@ type S struct {
 	groupSeen       map[string]bool // ns|shard group -> the group's series index exists
 	detached        map[string]bool // ns|shard group -> index created while delReady: DROP SERIES does not reach it
 	everMst         map[string]bool // ns|measurement ever written since the namespace was created
-	tainted         map[string]bool // ns|measurement: a DROP SERIES hit it while a greater measurement name was in the index
+	tainted         map[string]bool // ns|measurement: some DROP SERIES was effective on its current incarnation
 	redropped       map[string]bool // ns|series dropped by DROP SERIES at least once in the measurement's current incarnation
 	frozen          map[string]bool // ns|series live again and a restart happened since: the next write gets a second live id
 	noExcl          bool            // replays of known findings: evaluate every read
@@ -353,11 +353,7 @@ func (s *S) drop(d *Drop) {
 			s.dropUnsettled = true
 			s.lastDropAt = time.Now()
 			s.delReady[d.NS] = true
-			for k := range s.everMst {
-				if strings.HasPrefix(k, d.NS+"|") && k > d.NS+"|"+d.Mst {
-					s.tainted[d.NS+"|"+d.Mst] = true
-				}
-			}
+			s.tainted[d.NS+"|"+d.Mst] = true // has deleted series ids
 		}
 		forget(d.NS, dropped)
 	case "measurement":
@@ -426,6 +422,15 @@ func positiveOnly(p *Pred) bool {
 // not subtract the deleted series.
 func (s *S) unreliable(r *ReadSpec) bool {
 	if s.noExcl || !s.tainted[r.NS+"|"+r.Mst] || (r.Kind != "rows" && r.Kind != "agg") {
+		return false
+	}
+	last := true // no greater measurement name was ever written into the namespace
+	for k := range s.everMst {
+		if strings.HasPrefix(k, r.NS+"|") && k > r.NS+"|"+r.Mst {
+			last = false
+		}
+	}
+	if last {
 		return false
 	}
 	return r.Pred == nil || !positiveOnly(r.Pred)
@@ -1010,6 +1015,12 @@ func runHistory(t *rapid.T, c *ev.Case) {
 			kinds = append(kinds, "database", "database")
 		}
 		d := &Drop{Kind: rapid.SampledFrom(kinds).Draw(t, "dropKind")}
+		if mode == "db" && d.Kind == "series" {
+			// known finding: series ids repeat between databases and a pooled index search keeps the deleted-id set
+			// of the index it served last, so a DROP SERIES in one database hides / spares series of the other one
+			c.Excluded("drop-series-while-a-second-database-exists")
+			d.Kind = rapid.SampledFrom([]string{"measurement", "database"}).Draw(t, "dropKindDB")
+		}
 		switch d.Kind {
 		case "rp":
 			d.NS = "db0.rp1"
